@@ -9,7 +9,8 @@ a lock left by a dead process can eventually be acquired.
 
 Model: `TwistedModel/Fs/Lock.lean` — processes are all of `Nat` (process `i` has pid `i`), a schedule
 is any `List Ev` (`lock i`/`unlock i` enter a call, `step i` runs one primitive, `crash i` = the
-process dies or exits), `run (init link status) es` is the state after the schedule; every prefix of
+process dies or exits, `spawn i` = a new process with a fresh lock object is started under the pid of a
+dead one that the lock path does not name — pid reuse), `run (init link status) es` is the state after the schedule; every prefix of
 a schedule is a schedule, so a theorem about `run … es` for all `es` is a theorem about every moment.
 
 FULL STATEMENT (NOT provable — it is false for the code as written):
@@ -17,9 +18,10 @@ FULL STATEMENT (NOT provable — it is false for the code as written):
     theorem mutual_exclusion (link status es i j) :
         holds (run (init link status) es) i → holds (run (init link status) es) j → i = j
 
-`mutual_exclusion_counterexample` (dead owner's link present at the start) and
+`mutual_exclusion_counterexample` (dead owner's link present at the start),
 `mutual_exclusion_counterexample_exit` (no stale link ever: the owner unlocks and exits between another
-process's `readlink` and `kill`) prove its negation on two concrete schedules; both are replayed on the
+process's `readlink` and `kill`) and `mutual_exclusion_counterexample_reuse` (the robbed holder is a new
+process born under the pid that was judged dead) prove its negation on concrete schedules; all are replayed on the
 real `FilesystemLock` by `harness/corr/C50.py`.  Cause: `readlink → kill(pid,0)=ESRCH → rmlink` is not
 atomic and `rmlink` removes whatever link is there *now*, so a process that judged pid x dead deletes
 the live lock another process created in between, then acquires.
@@ -29,7 +31,8 @@ What IS proved, for all schedules and any number of processes:
   stale-breaking branch (sees `ESRCH`), crashes and stale links allowed;
 * `mutual_exclusion_partial` — the schedule-level corollary: no dead owner's link at the start and no
   process dies ⇒ at most one holder, whatever `lock`/`unlock` calls (including `unlock` by
-  non-holders and re-`lock` by the holder) are interleaved in whatever way;
+  non-holders and re-`lock` by the holder) are interleaved in whatever way, new processes arriving
+  under reused pids (`spawn`) included;
   MISSING w.r.t. the full statement: exactly the runs that take the `ESRCH → rmlink` branch while some
   other process can act between the `readlink` and the `rmlink` — where the code is wrong;
 * `holder_can_release` / `holder_can_release_interleaved_partial` — a holder's `unlock()` succeeds,
@@ -147,6 +150,28 @@ theorem inv_apply (s : Sys) (e : Ev) (h : Inv s) (hb : breaksAt s e = false) : I
           · simpa [hij] using hi
         exact h3 i c hi' hl
     · exact ⟨h1, h2, h3⟩
+  | spawn j =>
+    -- a brand-new process: fresh object (not locked, idle), so every clause is vacuous for it
+    obtain ⟨h1, h2, h3⟩ := h
+    simp only [apply]
+    split
+    · constructor
+      · intro i hi hl
+        by_cases hij : i = j
+        · subst hij; simp [setProc_same] at hl
+        · simp only [setProc_ne _ _ _ _ hij] at hl
+          exact h1 i (by simpa [hij] using hi) hl
+      · intro i hi hl
+        by_cases hij : i = j
+        · subst hij; simp [setProc_same] at hl
+        · simp only [setProc_ne _ _ _ _ hij] at hl
+          exact h2 i (by simpa [hij] using hi) hl
+      · intro i c hi hl
+        by_cases hij : i = j
+        · subst hij; simp [setProc_same] at hl
+        · simp only [setProc_ne _ _ _ _ hij] at hl
+          exact h3 i c (by simpa [hij] using hi) hl
+    · exact ⟨h1, h2, h3⟩
   | step j =>
     obtain ⟨h1, h2, h3⟩ := h
     simp only [apply]
@@ -252,6 +277,26 @@ theorem nodead_apply (s : Sys) (e : Ev) (h : NoDead s) (hc : isCrash e = false) 
           · simp only [setProc_ne _ _ _ _ hij] at hl; exact h2 i c x hl
       · exact ⟨h1, h2⟩
     · exact ⟨h1, h2⟩
+  | spawn j =>
+    refine ⟨?_, rfl⟩
+    simp only [apply]
+    split
+    · constructor
+      · intro q hq
+        show (if q = j then Status.alive else s.status q) ≠ .dead
+        by_cases hqj : q = j
+        · simp [hqj]
+        · simp only [hqj, if_false]; exact h1 q hq
+      · intro i c x hl
+        show (if x = j then Status.alive else s.status x) ≠ .dead
+        have hl' : (s.procs i).pc = .lKill c x := by
+          by_cases hij : i = j
+          · subst hij; simp [setProc_same] at hl
+          · simpa only [setProc_ne _ _ _ _ hij] using hl
+        by_cases hxj : x = j
+        · simp [hxj]
+        · simp only [hxj, if_false]; exact h2 i c x hl'
+    · exact ⟨h1, h2⟩
   | step j =>
     constructor
     · simp only [apply]
@@ -353,11 +398,53 @@ theorem mutual_exclusion_counterexample_exit :
       holds (run (init none status) es) i ∧ holds (run (init none status) es) j ∧ i ≠ j :=
   ⟨stAlive [0, 1, 2], wExit, 1, 2, by decide, by decide, by decide⟩
 
+/-! ### pid reuse (`spawn`): a new process that gets the pid of a dead one -/
+
+/-- `spawn` is refused while the lock path names the dead pid (the ASSUMES of the check: a dead pid is
+    not reused while the lock path names it), and for a pid that is alive -/
+theorem spawn_guard (s : Sys) (i : Nat) (h : s.link = some i ∨ s.status i ≠ .dead) :
+    apply s (.spawn i) = s := by
+  simp only [apply]
+  split
+  next hs => rcases h with h | h
+             · exact absurd h hs.2
+             · exact absurd hs.1 h
+  next => rfl
+
+/-- a spawned process is alive, idle, and holds nothing: its `FilesystemLock` object is fresh -/
+theorem spawn_fresh (s : Sys) (i : Nat) (hd : s.status i = .dead) (hl : s.link ≠ some i) :
+    (apply s (.spawn i)).status i = .alive ∧ (apply s (.spawn i)).procs i = {} ∧
+      (apply s (.spawn i)).link = s.link := by
+  simp [apply, hd, hl, setProc_same]
+
+/-- non-vacuity of `mutual_exclusion_partial` over schedules with `spawn`: pid 1 is dead at the start
+    (the link does not name it); process 0 locks and unlocks; a new process is born with pid 1 and
+    acquires; 0's next `lock()` probes pid 1, finds it alive and is refused -/
+example :
+    let es : List Ev := [.lock 0, .step 0, .unlock 0, .step 0, .step 0, .spawn 1, .lock 1, .step 1,
+                         .lock 0, .step 0, .step 0, .step 0]
+    (∀ e ∈ es, isCrash e = false) ∧ holds (run (init none (stAlive [0])) es) 1 ∧
+      ¬ holds (run (init none (stAlive [0])) es) 0 ∧
+      ((run (init none (stAlive [0])) es).procs 0).last = .retFalse := by decide
+
+/-- **Counterexample with pid reuse** (the same defect, the robbed holder carries the pid the robber
+    judged dead): dead pid 1 owns the link; 0 reads it, `kill` answers ESRCH, 0 is about to `rmlink`;
+    2 breaks the stale link, acquires, releases; a new process is born with pid 1 and acquires; 0's
+    pending `rmlink` deletes ITS live link and 0 acquires too. -/
+def wReuse : List Ev :=
+  [.lock 0, .step 0, .step 0, .step 0, .lock 2, .step 2, .step 2, .step 2, .step 2, .step 2,
+   .unlock 2, .step 2, .step 2, .spawn 1, .lock 1, .step 1, .step 0, .step 0]
+
+theorem mutual_exclusion_counterexample_reuse :
+    ∃ (link : Option Nat) (status : Nat → Status) (es : List Ev) (i j : Nat),
+      (∀ e ∈ es, isCrash e = false) ∧
+      holds (run (init link status) es) i ∧ holds (run (init link status) es) j ∧ i ≠ j :=
+  ⟨some 1, stAlive [0, 2], wReuse, 0, 1, by decide, by decide, by decide, by decide⟩
 
 /-! ### a holder can release -/
 
 def evProc : Ev → Nat
-  | .lock i | .unlock i | .step i | .crash i => i
+  | .lock i | .unlock i | .step i | .crash i | .spawn i => i
 
 theorem run_append (s : Sys) (a b : List Ev) : run s (a ++ b) = run (run s a) b := by
   simp [run, List.foldl_append]
@@ -398,6 +485,11 @@ theorem apply_other (s : Sys) (e : Ev) (i : Nat) (h : evProc e ≠ i) :
     simp only [evProc] at h'
     simp only [apply]; split
     · exact ⟨rfl, by simp [h']⟩
+    · exact ⟨rfl, rfl⟩
+  | spawn j =>
+    simp only [evProc] at h'
+    simp only [apply]; split
+    · exact ⟨setProc_ne _ _ _ _ h', by simp [h']⟩
     · exact ⟨rfl, rfl⟩
 
 theorem run_others (s : Sys) (es : List Ev) (i : Nat) (h : ∀ e ∈ es, evProc e ≠ i) :
